@@ -51,6 +51,11 @@ def set_epoch_rule(rep: Report, R, E: str, clause: str):
     N, I = R.main_next, R.main_iter
     if getattr(R, "main_source_node", None) is not None:
         I = R.main_source_node  # islice(self.main_sampler, ..) takes iter() of the sampler where it is created
+    chunked = I is None and getattr(R, "chunk_source_node", None) is not None
+    if chunked:
+        # 'it = iter(self.main_sampler)' consumed in chunks: the epoch's iteration starts where iter() is taken
+        I = R.chunk_source_node
+        N = cfg.out_edge(I, None)
     # ---- 1. set_epoch ----------------------------------------------------------------------------------
     rep.rule("G8.set_epoch", "main_sampler.set_epoch(<epoch counter>) lies on every path to each epoch's iteration of the "
              "main sampler (first epoch and every later one), is guarded by nothing but the hasattr test, and its "
@@ -68,7 +73,7 @@ def set_epoch_rule(rep: Report, R, E: str, clause: str):
         nodes = {n for n, _ in se}
         first = pc.must_pass(nodes, src=pc.entry, dst=I)
         later = not pc.reachable(N, I, avoid=nodes)
-        inside = any(n in R.loop_body_nodes(N) for n in nodes)
+        inside = False if chunked else any(n in R.loop_body_nodes(N) for n in nodes)
         rep.decide(first and later and not inside, "G8.set_epoch", fi, "announce-before-each-epoch",
                    "set_epoch dominates the main iteration of the first and of every later epoch",
                    ("first epoch can start without set_epoch; " if not first else "") +
@@ -96,6 +101,21 @@ def set_epoch_rule(rep: Report, R, E: str, clause: str):
 
 
 
+def chunked_main_loop(rep: Report, R, clause: str):
+    """The main sampler is not walked by a per-index 'for' but consumed in chunks from 'it = iter(self.main_sampler)'.  The
+    counter / flag / budget rules are written for the per-index loop and are not decided for this construction; what stays
+    decidable is the announcement of the epoch before the iterator is taken."""
+    fi = R.fi
+    rep.rule("G8.main-loop-form", "the rules on counters, flags, budget test and epoch end read them off the per-index loop "
+             "'for i in self.main_sampler'; a loop that takes the indices in chunks from one iterator per epoch is another "
+             "construction, for which only 'set_epoch before the iterator is taken' is decided")
+    rep.unk("G8.main-loop-form", fi, "chunked-main-loop", "main indices are taken in chunks from iter(self.main_sampler): "
+            "per-index rules not decided", line=R.line(R.chunk_source_node), clause=clause)
+    E = R.counter_from("start_epoch")
+    if E:
+        set_epoch_rule(rep, R, E, clause=clause)
+
+
 def run(prog: Program, rep: Report, tier: str):
     R = Roles(prog, "_training_loop")
     fa, cfg, fi = R.fa, R.fa.cfg, R.fi
@@ -107,6 +127,11 @@ def run(prog: Program, rep: Report, tier: str):
                         "shape of its formula; 'only an epoch's last batch may be short' as a statement about values",
                         "termination for every budget (argument: B <= N implies N//B*B >= B > 0, so every epoch has at "
                         "least one update; counters strictly increase; written here, not machine-checked)"]
+    if R.main_iter is None and R.chunk_source_node is not None:
+        chunked_main_loop(rep, R, "C04.1")
+        batch_sampler(prog, rep)
+        names.check(prog, rep, [FILE], clause="C04.G1", floor=10)
+        return
     rep.require(R.main_iter is not None, "anchor-missing: loop over self.main_sampler in _training_loop")
     # ---- 0. progress is local to one iteration of the sampler ---------------------------------------------------------
     rep.rule("G8.iteration-state-local", "_training_loop keeps its progress in locals: inside its loops it stores nothing on self "
